@@ -271,6 +271,19 @@ impl Scenario for Store {
             // two runs in three go on with what makes a large bucket matter: merge everything into the sorted
             // section, leave a few more entries of the same bucket pending, close and reopen
             if rng.chance(2, 3) {
+                // ... after removing / re-writing / reading a few objects from the middle of the bulk (indices past
+                // the handful of ordinary objects address the bulk), and sometimes with a second large bucket
+                for _ in 0..rng.range(0, 3) {
+                    let j = nobj + rng.below(u64::from(n)) as usize;
+                    ops.push(match rng.below(3) {
+                        0 => Op::Remove(j),
+                        1 => Op::Rewrite(j),
+                        _ => Op::Read(j),
+                    });
+                }
+                if rng.chance(1, 4) {
+                    ops.push(Op::BulkWrite { n: 1300, b: (b + 1 + rng.below(15) as u8) % 16 });
+                }
                 ops.push(Op::Flush { bucket: None });
                 ops.push(Op::BulkWrite { n: 2, b });
                 ops.push(Op::Reopen);
@@ -389,6 +402,18 @@ async fn run(case: &Case, ctx: &mut Ctx) -> Option<Violation> {
             }
             if let Some(false) = query_obj(sut, &o.ekey).await {
                 return Some(("query_false_for_live", "", format!("{when}: query of live object #{idx} (ekey {}) returned false", hex::encode(o.ekey))));
+            }
+            // Installation keeps the bytes of every object it has read in a cache of its own: after the first read
+            // `read_file_by_encoding_key` no longer looks at the archive. The same object read through the location
+            // the index holds for it (no cache on that path) must be the same bytes.
+            if let Sut::Install(inst) = sut {
+                if let Some(e) = inst.get_all_index_entries().await.into_iter().find(|e| e.key[..] == o.ekey[..9]) {
+                    match inst.read_from_archive(e.archive_location.archive_id, e.archive_location.archive_offset, e.size).await {
+                        Ok(b) if b == o.data => {}
+                        Ok(b) => return Some(("wrong_bytes", ",via=index_location", format!("{when}: object #{idx} ({} bytes, ekey {}) read through the location its index entry gives (archive {}, offset {}, size {}) is {} bytes that differ from what was written", o.data.len(), hex::encode(o.ekey), e.archive_location.archive_id, e.archive_location.archive_offset, e.size, b.len()))),
+                        Err(err) => return Some(("read_error", ",via=index_location", format!("{when}: object #{idx} (ekey {}) is readable by key but not through the location its index entry gives (archive {}, offset {}, size {}): {err}", hex::encode(o.ekey), e.archive_location.archive_id, e.archive_location.archive_offset, e.size))),
+                    }
+                }
             }
         } else {
             if r.is_ok() {
